@@ -273,6 +273,7 @@ def run(ck):
                         {"kind": "correspondence", "theorem": "correspondence stream lookup.dump", "diff": repr(diff)}, no_failing_input=True)
     # identifiers
     nid = 0
+    hist = []   # identifiers looked up before (state kept by the lookup functions between calls is part of the input)
     for v, ln in zip(idents, id_lines):
         nid += 1
         ck.coverage["evaluations"] += 1
@@ -288,7 +289,9 @@ def run(ck):
             continue
         isid = IsSpaceGroupIdentifier(v)
         key = "get:%r" % (v,)
-        repl = {"kind": "input", "identifier": v, "idtype": type(v).__name__}
+        repl = common.LazyReplay({"kind": "input", "identifier": v, "idtype": type(v).__name__},
+                                 history=lambda h=hist, n=len(hist): [[type(x).__name__, str(x)] for x in h[:n] if isinstance(x, (str, int)) and not isinstance(x, bool)])
+        hist.append(v)
         # oracle
         if res is not None and (res < 0 or not carries(sgl[res], v, aliases)):
             ck.fail(key, "GetSpaceGroup(%r) returned #%s (%s) which does not carry that identifier" % (v, sgl[res].number, sgl[res].short_name), repl)
@@ -604,6 +607,18 @@ def replay(path):
     info = tl.read_build_function()
     aliases = info["aliases"] or []
     pos_of = {id(g): i for i, g in enumerate(sgl)}
+    for ty, x in r.get("history") or []:
+        # the lookups made before this one in the run that found it
+        try:
+            GetSpaceGroup(int(x) if ty == "int" else x)
+        except Exception:  # noqa: BLE001
+            pass
+        try:
+            IsSpaceGroupIdentifier(int(x) if ty == "int" else x)
+        except Exception:  # noqa: BLE001
+            pass
+    if r.get("history"):
+        print("after %d earlier lookups:" % len(r["history"]))
     try:
         g = GetSpaceGroup(v)
         res = pos_of.get(id(g), -1)
